@@ -13,10 +13,12 @@ open TFV.Generated.Src TFV.Imp
 
 theorem src_uniform_proportional_crossover (ps : List (List Int)) (fit rank : List Int) (ch : List Nat)
     (hne : ps ≠ []) (hrows : ∀ r ∈ ps, r.length = (ps.headD []).length)
-    (hlen : ch.length = (ps.headD []).length) (hch : ∀ c ∈ ch, c < ps.length) :
-    uniform_proportional_crossover ps fit rank (ch.map Int.ofNat) = some (BinOps.uniformX ps ch) := by
+    (hlen : ch.length = (ps.headD []).length) (hch : ∀ c ∈ ch, c < ps.length)
+    (wsampler : List Int → Int → Bool → Nat → List Int)
+    (hsm : wsampler fit ((ps.headD []).length : Int) true 0 = ch.map Int.ofNat) :
+    uniform_proportional_crossover ps fit rank wsampler = some (BinOps.uniformX ps ch) := by
   unfold uniform_proportional_crossover
-  simp only [leni, getrow_zero]
+  simp only [leni, getrow_zero, hsm]
   generalize hL : (ps.headD []).length = L at *
   generalize hA : BinOps.uniformX ps ch = A
   have hAlen : A.length = (List.replicate L (0 : Int)).length := by
@@ -54,10 +56,12 @@ theorem src_uniform_proportional_crossover (ps : List (List Int)) (fit rank : Li
 
 theorem src_uniform_rank_crossover (ps : List (List Int)) (fit rank : List Int) (ch : List Nat)
     (hne : ps ≠ []) (hrows : ∀ r ∈ ps, r.length = (ps.headD []).length)
-    (hlen : ch.length = (ps.headD []).length) (hch : ∀ c ∈ ch, c < ps.length) :
-    uniform_rank_crossover ps fit rank (ch.map Int.ofNat) = some (BinOps.uniformX ps ch) := by
+    (hlen : ch.length = (ps.headD []).length) (hch : ∀ c ∈ ch, c < ps.length)
+    (wsampler : List Int → Int → Bool → Nat → List Int)
+    (hsm : wsampler rank ((ps.headD []).length : Int) true 0 = ch.map Int.ofNat) :
+    uniform_rank_crossover ps fit rank wsampler = some (BinOps.uniformX ps ch) := by
   unfold uniform_rank_crossover
-  simp only [leni, getrow_zero]
+  simp only [leni, getrow_zero, hsm]
   generalize hL : (ps.headD []).length = L at *
   generalize hA : BinOps.uniformX ps ch = A
   have hAlen : A.length = (List.replicate L (0 : Int)).length := by
